@@ -68,6 +68,19 @@ def scenarios(rng, quick):
             out.append(explore.Scenario("map-in-map-omc%d-imc%d" % (omc, imc), m,
                                         {"items": [{"xs": [1, 2]}, {"xs": [3]}, {"xs": []}, {"xs": [4, 5]}]},
                                         {"g": [("ok",)]}, {"g": 10}))
+    # a branch / iteration whose Task fails once and is retried (by its own Retry) after a sibling has already handed in
+    # its result: the join keeps what it has collected and completes
+    rt = task("fr", Retry=[{"ErrorEquals": ["E"], "IntervalSeconds": 1, "MaxAttempts": 2}])
+    m = {"StartAt": "P", "States": {"P": {"Type": "Parallel", "Next": "After", "Branches": [
+        {"StartAt": "R", "States": {"R": rt}}, {"StartAt": "Q", "States": {"Q": task("f0")}}]}, "After": {"Type": "Pass", "End": True}}}
+    for d in ({"fr": 30, "f0": 10}, {"fr": 10, "f0": 30}):
+        out.append(explore.Scenario("par-retry-inside-%d" % d["fr"], m, {"x": 1}, {"fr": [("err", "E", "m"), ("ok",)], "f0": [("ok",)]}, d))
+    it = {"StartAt": "C", "States": {"C": {"Type": "Choice", "Choices": [{"Variable": "$", "NumericEquals": 101, "Next": "R"}], "Default": "T"},
+                                     "R": rt, "T": task("g")}}
+    m = {"StartAt": "M", "States": {"M": {"Type": "Map", "ItemsPath": "$.items", "MaxConcurrency": 2, "ItemProcessor": it, "Next": "After"},
+                                    "After": {"Type": "Pass", "End": True}}}
+    out.append(explore.Scenario("map-retry-inside", m, {"items": [100, 101, 102, 103]},
+                                {"fr": [("err", "E", "m"), ("ok",)], "g": [("ok",)]}, {"fr": 30, "g": 10}))
     # iterations that fail, are caught inside the iteration and carry on in a slow recovery state while their
     # batch mates finish (the caught slot is still outstanding: the next batch must wait for it)
     for n, mc, bad in ((4, 2, [100]), (4, 2, [101]), (3, 1, [100]), (5, 2, [100, 103]), (4, 3, [102]), (4, 0, [101])):
